@@ -173,3 +173,86 @@ Proof.
   discriminate.
 Qed.
 End CosEncl.
+
+(* ---------- tan ---------- *)
+Lemma cos_pi_shift_nat x (k : nat) : cos (x + INR k * PI) = 0 <-> cos x = 0.
+Proof. induction k as [|k IH]; [cbn [INR]; replace (x + 0 * PI) with x by ring; tauto|].
+  rewrite S_INR. replace (x + (INR k + 1) * PI) with ((x + INR k * PI) + PI) by ring. rewrite neg_cos. rewrite <- IH. split; lra. Qed.
+Lemma tan_pi_shift_nat x (k : nat) : tan (x + INR k * PI) = tan x.
+Proof. induction k as [|k IH]; [cbn [INR]; f_equal; ring|].
+  rewrite S_INR. replace (x + (INR k + 1) * PI) with ((x + INR k * PI) + PI) by ring. rewrite <- IH. unfold tan. rewrite neg_sin, neg_cos.
+  unfold Rdiv. rewrite Rinv_opp. ring. Qed.
+
+Lemma cos_pi_shiftZ x (k : Z) : cos (x + IZR k * PI) = 0 <-> cos x = 0.
+Proof. destruct k as [|p|p].
+  - replace (x + 0 * PI) with x by ring. tauto.
+  - rewrite <- (cos_pi_shift_nat x (Pos.to_nat p)). rewrite INR_IZR_INZ, positive_nat_Z. tauto.
+  - rewrite <- (cos_pi_shift_nat (x + IZR (Z.neg p) * PI) (Pos.to_nat p)). rewrite INR_IZR_INZ, positive_nat_Z.
+    change (Z.neg p) with (- Z.pos p)%Z. rewrite opp_IZR. replace (x + - IZR (Z.pos p) * PI + IZR (Z.pos p) * PI) with x by ring. tauto. Qed.
+Lemma tan_pi_shiftZ x (k : Z) : tan (x + IZR k * PI) = tan x.
+Proof. destruct k as [|p|p].
+  - f_equal. simpl. ring.
+  - rewrite <- (tan_pi_shift_nat x (Pos.to_nat p)). rewrite INR_IZR_INZ, positive_nat_Z. reflexivity.
+  - rewrite <- (tan_pi_shift_nat (x + IZR (Z.neg p) * PI) (Pos.to_nat p)). rewrite INR_IZR_INZ, positive_nat_Z.
+    change (Z.neg p) with (- Z.pos p)%Z. rewrite opp_IZR. f_equal. ring. Qed.
+(* tan is increasing, and cos does not vanish, strictly between two consecutive poles *)
+Lemma tan_seg0 u x v : - (PI / 2) < u -> u <= x -> x <= v -> v < PI / 2 -> cos x <> 0 /\ tan u <= tan x <= tan v.
+Proof. intros H1 H2 H3 H4. split; [apply Rgt_not_eq; apply cos_gt_0; lra|]. split.
+  - destruct (Req_dec u x) as [->|Hne]; [lra|]. left. apply tan_increasing; lra.
+  - destruct (Req_dec x v) as [->|Hne]; [lra|]. left. apply tan_increasing; lra. Qed.
+Lemma tan_seg1 u x v : PI / 2 < u -> u <= x -> x <= v -> v < 3 * (PI / 2) -> cos x <> 0 /\ tan u <= tan x <= tan v.
+Proof. intros. destruct (tan_seg0 (u - PI) (x - PI) (v - PI)) as [C T]; try lra.
+  replace (u - PI) with (u + IZR (-1) * PI) in T by (simpl; ring). replace (x - PI) with (x + IZR (-1) * PI) in C, T by (simpl; ring).
+  replace (v - PI) with (v + IZR (-1) * PI) in T by (simpl; ring). rewrite !tan_pi_shiftZ in T. split; [|exact T].
+  intro E. apply C. apply cos_pi_shiftZ. exact E. Qed.
+
+Section TanEncl.
+Variables (ftan : R -> R) (fmod : R -> R -> R).
+Hypothesis ftan_is : forall x, ftan x = tan x.
+Hypothesis fmodpi_spec : forall x, exists k : Z, fmod x PI = x - IZR k * PI /\ 0 <= fmod x PI < PI.
+
+(* a bounded result means: no pole in the interval, and tan between the bounds (the end points themselves are assumed not to be poles:
+   a binary64 number is never exactly an odd multiple of pi/2) *)
+Theorem itan_encl lo hi a b x : lo <= hi -> cos lo <> 0 -> cos hi <> 0 ->
+  itan RN PI ftan fmod (lo, hi) = Ok (@Fin RN a, @Fin RN b) -> lo <= x <= hi -> cos x <> 0 /\ a <= tan x <= b.
+Proof.
+  intros Hlh Cl Ch E Hx. assert (P := PI_RGT_0). unfold itan in E.
+  unfold pihalf, two, nzero, within in E. cbn [fst snd nleb nltb nsub nmul ndiv nofZ RN T] in E.
+  destruct (fmodpi_spec lo) as (kl & El & Rl). destruct (fmodpi_spec hi) as (kh & Eh & Rh).
+  set (zl := fmod lo PI) in *. set (zh := fmod hi PI) in *.
+  match type of E with (if ?c then _ else _) = _ => destruct c eqn:C end; [discriminate|].
+  rewrite !ftan_is in E. destruct (Rleb (tan zl) (tan zh)); [|discriminate]. inversion E; subst a b. clear E.
+  apply orb_false_iff in C. destruct C as [C C4]. apply orb_false_iff in C. destruct C as [C C3]. apply orb_false_iff in C. destruct C as [C1 C2].
+  apply Rleb_false in C1.
+  (* the end points are not poles *)
+  assert (Zl : zl <> PI / 2).
+  { intro Z. apply Cl. replace lo with (zl + IZR kl * PI) by lra. apply cos_pi_shiftZ. rewrite Z. apply cos_PI2. }
+  assert (Zh : zh <> PI / 2).
+  { intro Z. apply Ch. replace hi with (zh + IZR kh * PI) by lra. apply cos_pi_shiftZ. rewrite Z. apply cos_PI2. }
+  assert (Hk : (kh = kl \/ kh = kl + 1)%Z).
+  { assert (A : IZR kh - IZR kl < 2) by nra. assert (B : -1 < IZR kh - IZR kl) by nra.
+    rewrite <- minus_IZR in A, B. apply lt_IZR in A. apply lt_IZR in B. lia. }
+  set (x' := x - IZR kl * PI).
+  assert (Tx : tan x' = tan x) by (unfold x'; replace (x - IZR kl * PI) with (x + IZR (- kl) * PI) by (rewrite opp_IZR; ring); apply tan_pi_shiftZ).
+  assert (Cx : cos x' <> 0 -> cos x <> 0) by (unfold x'; intros H0 E0; apply H0; replace (x - IZR kl * PI) with (x + IZR (- kl) * PI) by (rewrite opp_IZR; ring); apply cos_pi_shiftZ; exact E0).
+  rewrite <- Tx.
+  (* truth values of the domain tests *)
+  destruct (Rle_dec zl (PI / 2)) as [L1|L1]; destruct (Rle_dec zh (PI / 2)) as [H1|H1].
+  - (* both in d1 *) destruct Hk as [-> | ->].
+    + destruct (tan_seg0 zl x' zh) as [Q1 Q2]; unfold x'; try lra. split; [apply Cx; exact Q1|exact Q2].
+    + exfalso. rewrite plus_IZR in Eh. assert (zh < zl) by nra.
+      rewrite (proj2 (Rltb_true zh zl)) in C2 by assumption. rewrite !(proj2 (Rleb_true _ _)) in C2 by lra. discriminate.
+  - (* zl in d1, zh in d2: reported unbounded *) exfalso. rewrite !(proj2 (Rleb_true _ _)) in C4 by lra. discriminate.
+  - (* zl in d2, zh in d1: the interval wraps through a multiple of pi *) destruct Hk as [-> | ->].
+    + exfalso. nra.
+    + rewrite plus_IZR in Eh. destruct (tan_seg1 zl x' (zh + PI)) as [Q1 Q2]; unfold x'; try nra.
+      replace (zh + PI) with (zh + IZR 1 * PI) in Q2 by (simpl; ring). rewrite tan_pi_shiftZ in Q2. split; [apply Cx; exact Q1|exact Q2].
+  - (* both in d2 *) destruct Hk as [-> | ->].
+    + destruct (tan_seg1 zl x' zh) as [Q1 Q2]; unfold x'; try lra. split; [apply Cx; exact Q1|exact Q2].
+    + exfalso. rewrite plus_IZR in Eh. assert (zh < zl) by nra.
+      rewrite (proj2 (Rltb_true zh zl)) in C3 by assumption. rewrite !(proj2 (Rleb_true _ _)) in C3 by lra. discriminate.
+Qed.
+(* and an interval at least one period wide, or one that reaches across a pole, is reported unbounded *)
+Theorem itan_wide lo hi : PI <= hi - lo -> itan RN PI ftan fmod (lo, hi) = Ok (@MInf RN, @PInf RN).
+Proof. intros H. unfold itan. cbn [fst snd nleb nsub RN T]. rewrite (proj2 (Rleb_true _ _) H). reflexivity. Qed.
+End TanEncl.
